@@ -8,6 +8,8 @@ names = sys.argv[1:] or sorted(os.listdir(os.path.join(V, 'seeded')))
 rows = []
 for n in names:
     d = os.path.join(V, 'seeded', n)
+    if not os.path.isdir(d) or not os.path.exists(os.path.join(d, 'meta.json')):
+        continue
     meta = json.load(open(os.path.join(d, 'meta.json')))
     prop = meta['property']
     patch = os.path.join(d, 'patch.diff')
@@ -27,5 +29,5 @@ for n in names:
         subprocess.run(['git', '-C', R, 'checkout', '--', '.'])
     rows.append((n, prop, res, '; '.join(obl[:3])[:300] + (' (+%d more)' % (len(obl) - 3) if len(obl) > 3 else ''), round(time.time() - t0)))
     print(rows[-1], flush=True)
-json.dump(rows, open(os.path.join(V, 'seeded', 'RESULTS.json'), 'w'), indent=1)
+json.dump(rows, open(os.path.join(V, 'seeded', 'RESULTS.json' if not sys.argv[1:] else 'RESULTS.partial.json'), 'w'), indent=1)
 print('detected %d / %d' % (sum(1 for r in rows if r[2] == 'DETECTED'), len(rows)))
